@@ -34,6 +34,7 @@ CATALOGUE = [
     "iadd_float_into_int_incompatible", "isub_incompatible", "isub_other_ndim", "isub_str", "isub_ndarray",
     "isub_more_than_there", "isub_float_more_than_there", "imul_hist", "idiv_hist", "rdiv", "imul_negative",
     "idiv_negative", "imul_array", "idiv_array", "imul_str", "add_incompatible", "sub_more_than_there",
+    "imul_factor_square_overflows", "idiv_zero",
     # data faults
     "fill_nonscalar", "fill_wrong_length", "fill_str_weight", "fill_n_wrong_rank", "fill_n_wrong_columns",
     "fill_n_weights_wrong_length", "fill_n_weights_str", "fill_n_values_str", "fill_n_grow_then_bad_weights",
@@ -81,7 +82,7 @@ FAMILIES = ["1d_int", "1d_float", "1d_adaptive", "1d_gapped", "2d_fixed", "2d_ad
             "1d_int32", "1d_gapped_int", "1d_float_no_missed", "2d_no_missed", "2d_fortran", "2d_thin"]
 VALID = ["fill", "fill", "fill_w", "fill_n", "fill_n", "fill_n_w", "iadd_copy", "imul", "idiv", "merge", "set_dtype",
          "normalize", "fill_far", "isub_half", "iadd_float_copy", "isub_small_int", "fill_heavy", "iadd_batch_built",
-         "iadd_batch_built", "fill_a_derived", "fill_a_derived"]
+         "iadd_batch_built", "fill_a_derived", "fill_a_derived", "fill_w200", "fill_w200"]
 
 
 def generate(rng, seed, part):
@@ -182,6 +183,9 @@ def apply_valid(h, kind, arg):
     if kind == "fill_heavy":
         v = base[0] if nd == 1 else base
         return h.fill(v, 100000)
+    if kind == "fill_w200":
+        v = base[0] if nd == 1 else base
+        return h.fill(v, 200)  # content 200, squared error 40000
     if kind in ("fill", "fill_w", "fill_far"):
         if kind == "fill_far":
             base = [x + 5.0 + arg % 3 for x in base]
@@ -351,6 +355,12 @@ def apply_invalid(h, kind, arg):
         h /= np.ones(shape) * 2
     elif kind == "imul_str":
         h *= "2"
+    elif kind == "imul_factor_square_overflows":
+        if np.dtype(h.dtype).kind != "i" or not np.any(np.asarray(h.errors2) > 0):
+            return NotImplemented
+        h *= 2 ** 31  # contents * 2**31 fit int64, squared errors * 2**62 do not
+    elif kind == "idiv_zero":
+        h /= [0, 0.0, np.float64(0.0), np.int64(0)][arg % 4]
     elif kind == "fill_nonscalar":
         if nd != 1:
             return NotImplemented
@@ -433,9 +443,15 @@ def apply_invalid(h, kind, arg):
     elif kind == "dtype_too_narrow":
         f = np.asarray(h.frequencies, dtype=np.float64)
         e = np.asarray(h.errors2, dtype=np.float64)
-        if not (max(f.max(initial=0), e.max(initial=0)) > 70000):
+        top = max(f.max(initial=0), e.max(initial=0))
+        # every type that cannot hold the largest content or squared error (often only the squared errors are too big)
+        targets = [t for t, lim in ((np.int16, 32767), (np.float16, 65504), (np.int32, 2 ** 31 - 1)) if top > lim]
+        if not targets or not np.all(np.isfinite(f)) or not np.all(np.isfinite(e)):
             return NotImplemented
-        h.set_dtype(np.float16 if arg % 2 else np.int16)
+        if (arg >> 4) % 2:
+            h.dtype = targets[arg % len(targets)]
+        else:
+            h.set_dtype(targets[arg % len(targets)])
     elif kind == "projection_bad_index":
         if nd == 1:
             return NotImplemented
